@@ -3,7 +3,12 @@
 Case kinds
   save : one tool x option set x document x start state (stale .bak, target /
          output present) x one fault (None or the k-th I/O call failing, before
-         or in the middle of its effect, as OSError or AssertionError).
+         or in the middle of its effect, as OSError, AssertionError, TypeError,
+         ValueError, RecursionError or KeyboardInterrupt) - for yaml-set's YAML
+         save also a SECOND fault inside the restore path, and documents the
+         real serialiser refuses by itself (yaml-set -g a -T '!x' on a
+         non-string scalar: ruamel's dumper raises TypeError; a complex key in
+         a JSON target: json.dumps raises TypeError).
          The real main() runs in-process with its file I/O wrapped
          (harness/faultfs.py); observed: the I/O trace, the content class of
          target / .bak / output afterwards, the exit status, and whether the
@@ -24,13 +29,19 @@ import faultfs
 
 CONFIG = {
     "id": "C17",
-    "rule": ("save cases: yaml-set {backup} x {YAML, JSON} x {stale .bak} x 5 documents; yaml-merge {--output, "
+    "rule": ("save cases: yaml-set {backup} x {YAML, JSON} x {stale .bak} x 5+3 documents; yaml-merge {--output, "
              "--overwrite, --overwrite --backup} x {YAML, JSON} x {1..3 output documents} x {stale .bak} x {target "
              "exists} x {output exists}; eyaml-rotate-keys {backup} x {file holds secrets or not} x {stale .bak} x 3 "
              "documents; each under no fault and under a fault at EVERY call position k (0..K, K past the end) x "
-             "{raise before effect, raise mid effect} x {OSError, AssertionError}.  pre cases: 17 yaml-set and 14 "
-             "yaml-merge failure causes x {backup} x {stale .bak} x {armed fault}.  non-trivial = a fault fired or a "
-             "pre-write failure occurred; distinct = distinct (scenario, options, start state, fault)."),
+             "{raise before effect, raise mid effect} x {OSError, AssertionError, TypeError, ValueError, "
+             "RecursionError, KeyboardInterrupt} (yaml-set; OSError / TypeError for the others).  yaml-set YAML: a "
+             "fault of every class at the dump x a second fault at every call of the restore path; 7 documents the "
+             "REAL dumper refuses (yaml-set -g a -T '!x' on int / float / bool / null / date scalars, --value=9 -T x) "
+             "x {backup} x {stale} x {no fault, a fault at every call incl. the restore path}; 3 JSON targets json "
+             "cannot serialise.  pre cases: 19 yaml-set and 15 yaml-merge failure causes x {backup} x {stale .bak} x "
+             "{armed fault}, among them a merged result ruamel's dumper refuses (RecursionError).  non-trivial = a "
+             "fault fired, a serialiser refused the document, or a pre-write failure occurred; distinct = distinct "
+             "(scenario, options, start state, faults)."),
     "trusted_base": [
         "modelled, not verified: yaml_set.py 310-407 and 481-664, yaml_merge.py 221-303 and 492-557, "
         "eyaml_rotate_keys.py 187-198, consoleprinter.py critical()/error()",
@@ -38,14 +49,17 @@ CONFIG = {
         "write leaves; OS / disk-level atomicity (power cut in the middle of write(2), rename durability) cannot be "
         "exhibited in-process and is NOT covered",
         "harness/faultfs.py: wrappers installed in the command modules' namespaces (open, copy2, copyfileobj, remove, "
-        "exists, tempfile.TemporaryFile, json.dump/dumps) and on ruamel's YAML.dump/dump_all; a 'mid' fault performs "
-        "half of the call's effect before raising",
+        "exists, tempfile.TemporaryFile, json.dump/dumps) and on ruamel's YAML.dump/dump_all, a proxy around files "
+        "opened for writing (direct write() calls); a 'mid' fault performs half of the call's effect before raising",
+        "whether the serialiser accepts the document of a scenario (dump_ok) is an input of the model, fixed per "
+        "scenario in the tables of harness/c17.py (ruamel / json are oracles)",
         "the results of the individual pre-write steps (does the path match, does the merge conflict, ...) are inputs "
         "of the ordering model; they are produced by other models (C03-C05, C16)",
         "harness/eyaml_standin.py replaces the absent hiera-eyaml gem for the eyaml-rotate-keys cases",
     ],
     "assumptions": [
-        "single-fault hypothesis: at most one I/O call of a run fails; the run is not killed between calls",
+        "at most one I/O call of a run fails (two for yaml-set's restore path: the dump and one call of the "
+        "restore); the run is not killed between calls",
         "no other process touches the files during the run (exists()/open() races are out of scope)",
         "the model is the code only as far as the correspondence run shows",
     ],
@@ -89,6 +103,24 @@ SET_JSON_DOCS = [
     ("t.json", '{"a": 1, "b": [1, 2, {"c": "d"}]}', "a", "9"),
     ("t.json", '{"k": "v", "arr": ["x", "y"], "n": null}\n', "arr[0]", "z"),
     ("t.yaml", '{"flow": "root", "in": "a .yaml file"}\n', "flow", "changed"),
+]
+# documents ruamel's dumper REFUSES after the change (Nodes.apply_yaml_tag wraps the
+# non-string scalar in a TaggedScalar; the resolver raises TypeError after the
+# truncating open): (file name, text, argv between "yaml-set" and the file)
+SET_FAIL_DOCS = [
+    ("t.yaml", "a: 1\nb: 2\n", ["-g", "a", "-T", "!x"]),
+    ("t.yaml", "# c\nf: 1.5\nother: [1, 2]\n", ["-g", "f", "-T", "!x"]),
+    ("t.yaml", "flag: true\nk: v\n", ["-g", "flag", "-T", "!x"]),
+    ("t.yaml", "n: ~\nk: v\n", ["-g", "n", "-T", "!x"]),
+    ("t.yaml", "d: 2020-01-01\nk: v\n", ["-g", "d", "-T", "!x"]),
+    ("data.yml", "a: old\nb: 2\n", ["-g", "a", "--value=9", "-T", "x"]),
+    ("t.yaml", "l:\n  - 1\n  - two\n", ["-g", "l[0]", "-T", "!mytag"]),
+]
+# JSON targets whose document json.dumps refuses (a complex mapping key)
+SET_FAIL_JSON_DOCS = [
+    ("t.yaml", "{a: 1, ? [1, 2] : x}\n", ["-g", "a", "-a", "9"]),
+    ("t.json", "a: 1\n? [1, 2]\n: x\n", ["-g", "a", "-a", "9"]),
+    ("t.json", '{"a": 1, "m": {? {k: v} : x}}', ["-g", "a", "-a", "9"]),
 ]
 MERGE_LHS = [
     "a: 1\nb:\n  c: 2\n",
@@ -145,15 +177,16 @@ def rotate_docs():
 # ---- scenarios for pre-write failures -----------------------------------------
 def setin(**kw):
     d = dict(usage="true", args="true", stream="false", backup="false", json="false", vf="none", loaded="true",
-             must="false", get="ok", nodes=1, check="none", saveto="none", action="value", apply="ok", whole="false")
+             must="false", get="ok", nodes=1, check="none", saveto="none", action="value", apply="ok", whole="false",
+             dump_ok="true")
     d.update(kw)
     return d
 
 
 def setin_sexp(d, backup):
-    return "(setin %s %s %s %s %s %s %s %s %s i%d %s %s %s %s %s)" % (
+    return "(setin %s %s %s %s %s %s %s %s %s i%d %s %s %s %s %s %s)" % (
         d["usage"], d["args"], d["stream"], "true" if backup else "false", d["json"], d["vf"], d["loaded"], d["must"],
-        d["get"], d["nodes"], d["check"], d["saveto"], d["action"], d["apply"], d["whole"])
+        d["get"], d["nodes"], d["check"], d["saveto"], d["action"], d["apply"], d["whole"], d["dump_ok"])
 
 
 DOC0 = "a: 1\nb: 2\nl:\n  - x\n  - y\nh: &anch\n  k: v\ns: &sa scalar\n"
@@ -178,18 +211,37 @@ SET_CAUSES = {
     "value_file_missing": (DOC0, ["-g", "a", "-f", "/nonexistent/value/file"], setin(vf="false")),
     "eyaml_missing": (DOC0, ["-g", "a", "-a", "v", "--eyamlcrypt", "--eyaml", "/nonexistent/eyaml"],
                       setin(action="eyaml", apply="caught")),
+    # the changed document cannot be serialised: found before any file is touched (JSON target: json.dumps
+    # raises before the backup), or nothing but STDOUT is involved (document from STDIN)
+    "json_unserialisable": ("{a: 1, ? [1, 2] : x}\n", ["-g", "a", "-a", "9"], setin(json="true", dump_ok="false")),
+    "stream_dump_fails": ("a: 1\nb: 2\n", ["-g", "a", "-T", "!x", "-"], setin(stream="true", action="tag", dump_ok="false")),
 }
+STREAM_CAUSES = ("stream_dump_fails",)        # the document comes from STDIN (no --backup: validateargs refuses it)
 
 
 def mergein_sexp(d, mode, backup, json):
     files = " ".join("(%s i%d %s)" % f for f in d["files"])
-    return "(mergein %s %s %s %s %s (%s) none %s %s %s i%d)" % (
+    return "(mergein %s %s %s %s %s (%s) none %s %s %s i%d %s)" % (
         d.get("usage", "true"), d.get("args", "true"), mode, "true" if backup else "false",
         "true" if json else "false", files, d.get("condense", "true"), d.get("single", "i0"),
-        d.get("prepare", "ok"), d.get("outdocs", 1))
+        d.get("prepare", "ok"), d.get("outdocs", 1), d.get("dump_ok", "true"))
 
 
 L0 = "a: 1\nh:\n  k: v\nl: [1, 2]\nanch: &x one\nuse: *x\n"
+
+
+def _nest(depth, leaf):
+    return "".join("  " * i + "k%d:\n" % i for i in range(depth)) + "  " * depth + leaf + "\n"
+
+
+# two documents ruamel loads, merged (--mergeat the innermost Hash) into one nested deeper than its
+# representer can recurse: dump raises RecursionError
+DEEP = 170
+DEEP_LHS = _nest(DEEP, "v: {}")
+DEEP_RHS = "b: " + "[" * DEEP + "]" * DEEP + "\n"
+DEEP_PATH = "/" + "/".join("k%d" % i for i in range(DEEP)) + "/v"
+# harness/common.py raises the recursion limit of the workers; these scenarios depend on the default one
+CLI_RECURSION_LIMIT_CAUSES = ("unrenderable_yaml",)
 # name -> (list of (file name, text | None=absent), extra argv, model input)
 MERGE_CAUSES = {
     "rhs_unreadable": ([("l.yaml", L0), ("r.yaml", "a: [1, 2\n}{")], [],
@@ -217,10 +269,20 @@ MERGE_CAUSES = {
                           dict(files=[("true", 1, "i0"), ("true", 1, "i0")], prepare="uncaught", json=True)),
     "nothing_to_write": ([("l.yaml", "")], ["-M", "merge_across"],
                          dict(files=[("true", 0, "i0")], condense="false", prepare="uncaught", outdocs=0)),
+    "unrenderable_yaml": ([("l.yaml", DEEP_LHS), ("r.yaml", DEEP_RHS)], ["-m", DEEP_PATH],
+                          dict(files=[("true", 1, "i0"), ("true", 1, "i0")], dump_ok="false")),
 }
 
 
 # ---- cases ----------------------------------------------------------------------
+ALL_KINDS = ("oserror", "assert", "typeerror", "valueerror", "recursion", "interrupt")
+
+
+def set_dump_pos(backup, stale):
+    """Position of yaml-set's dump among the calls of the YAML save."""
+    return (2 + (1 if stale else 0) if backup else 0) + 4
+
+
 def fault_list(kmax, kinds=("oserror", "assert")):
     out = [None]
     for k in range(kmax + 1):
@@ -237,14 +299,29 @@ def all_cases(tier):
         for stale in (False, True):
             for json, docs in ((False, SET_DOCS), (True, SET_JSON_DOCS)):
                 for di in range(len(docs)):
-                    for f in fault_list(9 if not json else 6):
+                    for f in fault_list(9 if not json else 7, kinds=ALL_KINDS):
                         cases.append(dict(kind="save", tool="set", backup=backup, json=json, stale=stale, doc=di, fault=f))
+            # the dump fails (every class), then a call of the restore path fails too
+            g = set_dump_pos(backup, stale)
+            for di in (0, 1):
+                for kd in ALL_KINDS:
+                    for mode in ("before", "mid"):
+                        for f2 in fault_list(g + 4, kinds=("oserror", "assert"))[1 + 4 * (g + 1):]:
+                            cases.append(dict(kind="save", tool="set", backup=backup, json=False, stale=stale, doc=di,
+                                              fault=[g, mode, kd], fault2=f2))
+            # documents the real dumper / json refuses, with no fault and with one at every call
+            for di in range(len(SET_FAIL_DOCS)):
+                for f in fault_list(g + 4, kinds=("oserror", "assert")):
+                    cases.append(dict(kind="save", tool="set", backup=backup, json=False, stale=stale, fdoc=di, fault=f))
+            for di in range(len(SET_FAIL_JSON_DOCS)):
+                for f in fault_list(2, kinds=("oserror", "typeerror")):
+                    cases.append(dict(kind="save", tool="set", backup=backup, json=True, stale=stale, fdoc=di, fault=f))
     # yaml-merge
     for json in (False, True):
         for ndocs in (1, 2, 3):
             for di in range(len(MERGE_LHS)):
                 for oe in (False, True):
-                    for f in fault_list(4 + (ndocs if json else 0), kinds=("oserror",)):
+                    for f in fault_list(5 + (ndocs if json else 1), kinds=("oserror", "typeerror")):
                         cases.append(dict(kind="save", tool="merge", mode="output", backup=False, json=json, ndocs=ndocs,
                                           stale=False, texists=True, oexists=oe, doc=di, fault=f))
                 for backup in (False, True):
@@ -252,7 +329,7 @@ def all_cases(tier):
                         for te in (True, False):
                             if tier == "quick" and not te and di > 0:
                                 continue
-                            for f in fault_list(7 + (ndocs if json else 0), kinds=("oserror",)):
+                            for f in fault_list(8 + (ndocs if json else 1), kinds=("oserror", "typeerror")):
                                 cases.append(dict(kind="save", tool="merge", mode="overwrite", backup=backup, json=json,
                                                   ndocs=ndocs, stale=stale, texists=te, oexists=False, doc=di, fault=f))
     # yaml-merge to stdout, and --backup without --overwrite
@@ -266,12 +343,14 @@ def all_cases(tier):
         for stale in (False, True):
             for changed in (True, False):
                 for di in range(3):
-                    for f in fault_list(6 if changed else 1, kinds=("oserror",)):
+                    for f in fault_list(6 if changed else 1, kinds=("oserror", "typeerror")):
                         cases.append(dict(kind="save", tool="rotate", backup=backup, changed=changed, stale=stale, doc=di,
                                           fault=f))
     # pre-write failures
     for name in SET_CAUSES:
         for backup in (False, True):
+            if backup and name in STREAM_CAUSES:
+                continue
             for stale in (False, True):
                 for f in (None, [0, "before", "oserror"], [2, "mid", "oserror"]):
                     cases.append(dict(kind="pre", tool="set", cause=name, backup=backup, stale=stale, fault=f))
@@ -319,11 +398,13 @@ def requests(case):
     f = fault_sexp(case["fault"])
     if case["kind"] == "save":
         if case["tool"] == "set":
-            cfg = "(set %s %s)" % (b(case["backup"]), b(case["json"]))
+            cfg = "(set %s %s %s)" % (b(case["backup"]), b(case["json"]), b("fdoc" not in case))
         elif case["tool"] == "merge":
-            cfg = "(merge %s %s %s i%d)" % (case["mode"], b(case["backup"]), b(case["json"]), case["ndocs"])
+            cfg = "(merge %s %s %s i%d true)" % (case["mode"], b(case["backup"]), b(case["json"]), case["ndocs"])
         else:
             cfg = "(rotate %s %s)" % (b(case["backup"]), b(case["changed"]))
+        if case.get("fault2") is not None:
+            return ["(save2 %s %s %s %s)" % (cfg, start_fs(case), f, fault_sexp(case["fault2"]))]
         return ["(save %s %s %s)" % (cfg, start_fs(case), f)]
     if case["tool"] == "set":
         _, _, d = SET_CAUSES[case["cause"]]
@@ -339,7 +420,14 @@ def setup(case, d):
     roles, watched) where watched = {role: (path, original bytes | None)}."""
     tool = case["tool"]
     files = {}
-    if case["kind"] == "save" and tool == "set":
+    stdin_text = None
+    if case["kind"] == "save" and tool == "set" and "fdoc" in case:
+        name, text, mid = (SET_FAIL_JSON_DOCS if case["json"] else SET_FAIL_DOCS)[case["fdoc"]]
+        T = os.path.join(d, name)
+        files[T] = text.encode("utf-8")
+        argv = ["yaml-set"] + mid + (["--backup"] if case["backup"] else []) + [T]
+        mod = _ENV["set"]
+    elif case["kind"] == "save" and tool == "set":
         name, text, path, val = (SET_JSON_DOCS if case["json"] else SET_DOCS)[case["doc"]]
         T = os.path.join(d, name)
         files[T] = text.encode("utf-8")
@@ -382,7 +470,12 @@ def setup(case, d):
         text, extra, _ = SET_CAUSES[case["cause"]]
         T = os.path.join(d, "t.yaml")
         files[T] = text.encode()
-        argv = ["yaml-set"] + extra + (["--backup"] if case["backup"] else []) + [T]
+        if case["cause"] in STREAM_CAUSES:
+            # the document arrives on STDIN; t.yaml is a bystander that must stay as it is
+            stdin_text = text
+            argv = ["yaml-set"] + extra
+        else:
+            argv = ["yaml-set"] + extra + (["--backup"] if case["backup"] else []) + [T]
         mod = _ENV["set"]
     else:
         fl, extra, _ = MERGE_CAUSES[case["cause"]]
@@ -412,7 +505,7 @@ def setup(case, d):
         with open(p, "wb") as fh:
             fh.write(data)
     roles = {T: "target", T + ".bak": "bak", O: "output"}
-    return mod, argv, roles, files, T, O
+    return mod, argv, roles, files, T, O, stdin_text
 
 
 def snapshot(d):
@@ -431,13 +524,17 @@ def ref_key(case):
     return tuple(sorted((k, str(v)) for k, v in case.items() if k != "fault"))
 
 
-def run_case(case, fault):
+def run_case(case, faults):
     d = _mkdir()
+    limit = sys.getrecursionlimit()
     try:
-        mod, argv, roles, files, T, O = setup(case, d)
-        r = faultfs.run_tool(mod, argv, roles, fault=tuple(fault) if fault else None)
+        mod, argv, roles, files, T, O, stdin_text = setup(case, d)
+        if case.get("cause") in CLI_RECURSION_LIMIT_CAUSES:
+            sys.setrecursionlimit(1000)     # the interpreter's default, under which the real tool runs
+        r = faultfs.run_tool(mod, argv, roles, fault=[tuple(f) for f in faults if f] or None, stdin_text=stdin_text)
         after = snapshot(d)
     finally:
+        sys.setrecursionlimit(limit)
         shutil.rmtree(d, ignore_errors=True)
     # strip the directory so that runs in different directories compare
     strip = lambda m: {os.path.basename(p): v for p, v in m.items()}   # noqa
@@ -461,10 +558,10 @@ def observe(case):
     if key not in _REF:
         if len(_REF) > 50:
             _REF.clear()
-        r0, before0, after0, T0, O0 = run_case(case, None)
+        r0, before0, after0, T0, O0 = run_case(case, [])
         _REF[key] = (after0.get(T0), after0.get(O0), r0["status"])
     newT, newO, _ = _REF[key]
-    r, before, after, T, O = run_case(case, case["fault"])
+    r, before, after, T, O = run_case(case, [case["fault"], case.get("fault2")])
     origT = before.get(T)
     t = classify_bytes(after.get(T), origT, newT)
     bk = classify_bytes(after.get(T + ".bak"), origT, None)
@@ -474,7 +571,7 @@ def observe(case):
     line = "(out (%s) (fs %s %s %s) i%d %s)" % (" ".join(trace), t, bk, o, r["status"], "onecopy" if onecopy else "nocopy")
     # what the judge needs beyond the canonical line
     extra = {"before": before, "after": after, "T": T, "O": O, "newT": newT, "status": r["status"],
-             "crash": r["crash"], "fired": r["fired"], "trace": trace}
+             "crash": r["crash"], "fired": r["fired"], "trace": trace, "fired_ops": r["fired_ops"]}
     case["_extra"] = extra
     return [line]
 
@@ -503,6 +600,21 @@ def judge(case, obs):
         return None
     # save cases
     origT = before.get(T)
+    # a run in which NO I/O call was made to fail and which ends non-zero (the serialiser refused the document)
+    # has not changed the target, and no output or backup file has appeared
+    if not x["fired"] and x["status"] != 0 and case["tool"] in ("set", "merge"):
+        if origT is not None and after.get(T) != origT:
+            return "the run ended with status %d (%s) without any failing I/O call, yet the target file is %s" % (
+                x["status"], x["crash"], "gone" if after.get(T) is None else "no longer the original (%d of %d bytes)"
+                % (len(after.get(T)), len(origT)))
+        for n in after:
+            if n not in before:
+                return "the run ended with status %d without any failing I/O call and left a new file %s" % (x["status"], n)
+    # yaml-set's YAML save: a failure of the dump itself (any Exception class) and of nothing else is undone by
+    # the restore path
+    if case["tool"] == "set" and not case["json"] and x["fired_ops"] == ["(dump target)"] \
+            and case["fault"][2] != "interrupt" and origT is not None and after.get(T) != origT:
+        return "the dump failed (%s) and no other call did, yet the target does not hold the original bytes" % case["fault"][2]
     backup_on = case.get("backup") and origT is not None and not (case["tool"] == "rotate" and not case["changed"]) \
         and not (case["tool"] == "merge" and case["mode"] != "overwrite")
     if backup_on:
@@ -526,13 +638,14 @@ def classify(case, obs):
     if case["kind"] == "pre":
         return "pre:%s:%s:status%s" % (case["tool"], case["cause"], x.get("status"))
     f = case["fault"]
-    return "save:%s:%s:%s" % (case["tool"], "nofault" if f is None else ("%s-%s" % (f[1], f[2])),
-                              "fired" if x.get("fired") else "notfired")
+    tool = case["tool"] + (":refused" if "fdoc" in case else "") + (":2faults" if case.get("fault2") else "")
+    return "save:%s:%s:%s" % (tool, "nofault" if f is None else ("%s-%s" % (f[1], f[2])),
+                              ("fired%d" % len(x.get("fired_ops") or [])) if x.get("fired") else "notfired")
 
 
 def nontrivial(case, obs):
     x = case.get("_extra") or {}
-    return bool(x.get("fired")) or (case["kind"] == "pre" and x.get("status", 0) != 0)
+    return bool(x.get("fired")) or "fdoc" in case or (case["kind"] == "pre" and x.get("status", 0) != 0)
 
 
 def key(case):
